@@ -30,11 +30,11 @@ Definition set_sites : list site := [
   ((s "sharepoint2text/parsing/extractors/ms_legacy/xls_extractor.py"), (s "_extract_images_from_workbook"), (370)%Z, UMember);
   ((s "sharepoint2text/parsing/extractors/ms_modern/docx_extractor.py"), (s "<module>"), (178)%Z, UMember);
   ((s "sharepoint2text/parsing/extractors/ms_modern/docx_extractor.py"), (s "<module>"), (181)%Z, UMember);
-  ((s "sharepoint2text/parsing/extractors/ms_modern/docx_extractor.py"), (s "_extract_images_from_context"), (916)%Z, UMember);
-  ((s "sharepoint2text/parsing/extractors/ms_modern/docx_extractor.py"), (s "_extract_formulas_from_context"), (1003)%Z, UMember);
-  ((s "sharepoint2text/parsing/extractors/ms_modern/docx_extractor.py"), (s "read_docx"), (1058)%Z, USorted);
-  ((s "sharepoint2text/parsing/extractors/ms_modern/docx_extractor.py"), (s "_extract_images_from_context"), (957)%Z, USorted);
-  ((s "sharepoint2text/parsing/extractors/ms_modern/docx_extractor.py"), (s "_extract_images_from_context"), (903)%Z, USorted);
+  ((s "sharepoint2text/parsing/extractors/ms_modern/docx_extractor.py"), (s "_extract_images_from_context"), (927)%Z, UMember);
+  ((s "sharepoint2text/parsing/extractors/ms_modern/docx_extractor.py"), (s "_extract_formulas_from_context"), (1014)%Z, UMember);
+  ((s "sharepoint2text/parsing/extractors/ms_modern/docx_extractor.py"), (s "read_docx"), (1069)%Z, USorted);
+  ((s "sharepoint2text/parsing/extractors/ms_modern/docx_extractor.py"), (s "_extract_images_from_context"), (968)%Z, USorted);
+  ((s "sharepoint2text/parsing/extractors/ms_modern/docx_extractor.py"), (s "_extract_images_from_context"), (914)%Z, USorted);
   ((s "sharepoint2text/parsing/extractors/ms_modern/pptx_extractor.py"), (s "<module>"), (193)%Z, UMember);
   ((s "sharepoint2text/parsing/extractors/ms_modern/pptx_extractor.py"), (s "<module>"), (196)%Z, UMember);
   ((s "sharepoint2text/parsing/extractors/ms_modern/pptx_extractor.py"), (s "<module>"), (199)%Z, UMember);
@@ -68,13 +68,13 @@ Definition set_sites : list site := [
 ].
 
 Definition nd_sites : list nd_site := [
-  ((s "sharepoint2text/parsing/extractors/archive_extractor.py"), (s "read_archive"), (588)%Z, (s "time.perf_counter"), SLog);
-  ((s "sharepoint2text/parsing/extractors/archive_extractor.py"), (s "read_archive"), (620)%Z, (s "time.perf_counter"), SLog);
-  ((s "sharepoint2text/parsing/extractors/archive_extractor.py"), (s "read_archive"), (598)%Z, (s "time.perf_counter"), SLog);
+  ((s "sharepoint2text/parsing/extractors/archive_extractor.py"), (s "read_archive"), (599)%Z, (s "time.perf_counter"), SLog);
+  ((s "sharepoint2text/parsing/extractors/archive_extractor.py"), (s "read_archive"), (631)%Z, (s "time.perf_counter"), SLog);
+  ((s "sharepoint2text/parsing/extractors/archive_extractor.py"), (s "read_archive"), (609)%Z, (s "time.perf_counter"), SLog);
   ((s "sharepoint2text/parsing/extractors/html_extractor.py"), (s "_HtmlTextExtractor._find_nodes"), (314)%Z, (s "id()"), SIdentityKey);
   ((s "sharepoint2text/parsing/extractors/html_extractor.py"), (s "_HtmlTextExtractor._find_node"), (331)%Z, (s "id()"), SIdentityKey);
-  ((s "sharepoint2text/parsing/extractors/ms_modern/docx_extractor.py"), (s "_extract_formulas_from_context"), (1016)%Z, (s "id()"), SIdentityKey);
-  ((s "sharepoint2text/parsing/extractors/ms_modern/docx_extractor.py"), (s "_extract_formulas_from_context"), (1009)%Z, (s "id()"), SIdentityKey);
+  ((s "sharepoint2text/parsing/extractors/ms_modern/docx_extractor.py"), (s "_extract_formulas_from_context"), (1027)%Z, (s "id()"), SIdentityKey);
+  ((s "sharepoint2text/parsing/extractors/ms_modern/docx_extractor.py"), (s "_extract_formulas_from_context"), (1020)%Z, (s "id()"), SIdentityKey);
   ((s "sharepoint2text/parsing/extractors/ms_modern/pptx_extractor.py"), (s "_extract_formulas_from_element"), (674)%Z, (s "id()"), SIdentityKey);
   ((s "sharepoint2text/parsing/extractors/ms_modern/pptx_extractor.py"), (s "_extract_formulas_from_element"), (667)%Z, (s "id()"), SIdentityKey);
   ((s "sharepoint2text/parsing/extractors/pdf/_pypdf_aes_fallback.py"), (s "_cryptaes_encrypt"), (844)%Z, (s "secrets.token_bytes"), SEncryptOnly)
@@ -112,7 +112,7 @@ Definition stream_sites : list stream_site := [
   ((s "sharepoint2text/parsing/extractors/ms_legacy/xls_extractor.py"), (s "read_xls"), (323)%Z, (s "read"));
   ((s "sharepoint2text/parsing/extractors/ms_legacy/xls_extractor.py"), (s "_extract_images_from_workbook"), (351)%Z, (s "seek"));
   ((s "sharepoint2text/parsing/extractors/ms_legacy/xls_extractor.py"), (s "_extract_images_from_workbook"), (355)%Z, (s "seek"));
-  ((s "sharepoint2text/parsing/extractors/ms_modern/docx_extractor.py"), (s "read_docx"), (1039)%Z, (s "seek"));
+  ((s "sharepoint2text/parsing/extractors/ms_modern/docx_extractor.py"), (s "read_docx"), (1050)%Z, (s "seek"));
   ((s "sharepoint2text/parsing/extractors/ms_modern/pptx_extractor.py"), (s "read_pptx"), (951)%Z, (s "seek"));
   ((s "sharepoint2text/parsing/extractors/ms_modern/xlsx_extractor.py"), (s "_read_metadata"), (314)%Z, (s "seek"));
   ((s "sharepoint2text/parsing/extractors/ms_modern/xlsx_extractor.py"), (s "_read_content"), (530)%Z, (s "seek"));
@@ -127,8 +127,8 @@ Definition stream_sites : list stream_site := [
   ((s "sharepoint2text/parsing/extractors/pdf/pdf_extractor.py"), (s "_open_pdf_reader"), (220)%Z, (s "seek"));
   ((s "sharepoint2text/parsing/extractors/pdf/pdf_extractor.py"), (s "_open_pdf_reader"), (228)%Z, (s "seek"));
   ((s "sharepoint2text/parsing/extractors/pdf/pdf_extractor.py"), (s "_should_skip_images"), (248)%Z, (s "getbuffer().nbytes"));
-  ((s "sharepoint2text/parsing/extractors/plain_extractor.py"), (s "read_plain_text"), (177)%Z, (s "seek"));
-  ((s "sharepoint2text/parsing/extractors/plain_extractor.py"), (s "read_plain_text"), (179)%Z, (s "read"));
+  ((s "sharepoint2text/parsing/extractors/plain_extractor.py"), (s "read_plain_text"), (187)%Z, (s "seek"));
+  ((s "sharepoint2text/parsing/extractors/plain_extractor.py"), (s "read_plain_text"), (189)%Z, (s "read"));
   ((s "sharepoint2text/parsing/extractors/util/encryption.py"), (s "is_ooxml_encrypted"), (19)%Z, (s "seek"));
   ((s "sharepoint2text/parsing/extractors/util/encryption.py"), (s "is_ooxml_encrypted"), (26)%Z, (s "seek"));
   ((s "sharepoint2text/parsing/extractors/util/encryption.py"), (s "is_ooxml_encrypted"), (21)%Z, (s "seek"));
